@@ -50,6 +50,8 @@ fn build_world(name: &str) -> Built3 {
         // pool P13 is an adaptive-fee pool that opens for trading 40 s after the start: until the clock op (+45 s) has run, every
         // route through it has a leg that fails on its own ("fails ... if either leg would fail on its own"), afterwards not
         "c17-te" => (Kind::Spl, [false, false, true], Some(40)),
+        // the third pool is full-range-only (see partial_fill_part)
+        "c17-fro" => (Kind::Spl, [false, false, false], None),
         _ => panic!("unknown world {name}"),
     };
     let (l, w) = w3::build(kind, name, adaptive, te);
@@ -651,6 +653,14 @@ pub fn run(ctx: &Ctx) -> Report {
     let total_budget = ctx.pick(60.0, 900.0f64).min(ctx.budget_s * 0.9);
     let mut totals = Counts::new();
     let mut min_depth: Option<usize> = None;
+    // exact-out requests beyond what a leg can deliver, through a full-range-only pool (the price bound lies inside its arrays)
+    let (pf_n, pf_bad) = partial_fill_part();
+    r.set("exact_out_beyond_reserves_variants", pf_n);
+    r.guard("exact_out_beyond_reserves_variants", pf_n);
+    if let Some((k, d, c)) = pf_bad {
+        r.violation(k, d, c);
+        return r;
+    }
     for (name, frac) in &names {
         let b = build_world(name);
         let m = Model3::new(&b, thorough);
@@ -788,6 +798,48 @@ pub fn trade_enable_part() -> (u64, Option<(String, String, Value)>) {
     (n, None)
 }
 
+/// "An exact-out swap with no explicit limit either delivers the full amount or fails" on the two-hop instructions: in a world
+/// whose third pool is full-range-only (a swap can run to the protocol price bound inside its two arrays), every route is asked
+/// for more output than a leg can deliver, with and without explicit limits; judged by the same oracle (the leg fails on its
+/// own with PartialFillError, so the two-hop must fail). Returns (variants judged, first failure).
+pub fn partial_fill_part() -> (u64, Option<(String, String, Value)>) {
+    let b = build_world("c17-fro");
+    let versions: &[bool] = &[false, true];
+    let mut vs: Vec<Variant> = vec![];
+    for (one, two, a1, a2) in ROUTES {
+        for &v2 in versions {
+            for amount in [1u64 << 40, 1 << 50, 40_000_000] {
+                for (lim1, lim2) in [(Lim::None, Lim::None), (Lim::None, Lim::Bound), (Lim::Bound, Lim::None)] {
+                    vs.push(Variant { one, two, a1, a2, v2, exact_in: false, amount, lim1, lim2 });
+                }
+            }
+        }
+    }
+    let mut c = Counts::new();
+    let mut n = 0u64;
+    for (rname, l) in &b.roots {
+        for v in &vs {
+            n += 1;
+            let mut sample = None;
+            if let Err(e) = check_variant(l, &b.w, v, &mut c, &mut sample) {
+                let case = json!({"kind": "twohop_partial_fill", "root": rname, "variant": serde_json::to_value(v).unwrap()});
+                return (n, Some((format!("twohop_partial_fill/{rname}/{}", serde_json::to_string(v).unwrap()), format!("[world with a full-range-only third pool, root {rname}] {e} | variant {}", serde_json::to_string(v).unwrap()), case)));
+            }
+        }
+    }
+    (n, None)
+}
+
+pub fn replay_partial_fill(case: &Value) -> Result<(), String> {
+    let b = build_world("c17-fro");
+    let root = case["root"].as_str().ok_or("root")?;
+    let l = &b.roots.iter().find(|r| r.0 == root).ok_or("unknown root")?.1;
+    let v: Variant = serde_json::from_value(case["variant"].clone()).map_err(|e| e.to_string())?;
+    let mut c = Counts::new();
+    let mut sample = None;
+    check_variant(l, &b.w, &v, &mut c, &mut sample)
+}
+
 pub fn replay_trade_enable(case: &Value) -> Result<(), String> {
     let b = build_world("c17-te");
     let root = case["root"].as_str().ok_or("root")?;
@@ -809,6 +861,9 @@ pub fn replay_packaging(case: &Value) -> Result<(), String> {
 }
 
 pub fn replay(case: &Value) -> Result<(), String> {
+    if case["kind"].as_str() == Some("twohop_partial_fill") {
+        return replay_partial_fill(case);
+    }
     let name = case["world"].as_str().ok_or("world")?;
     let thorough = case["thorough"].as_bool().unwrap_or(true);
     let b = build_world(name);
